@@ -821,3 +821,48 @@ def check(facts, rep, tier, cfg):
     check_r3(facts, rep, crate)
     check_r4(facts, rep, crate)
     check_r5(facts, rep, crate)
+    check_r6_callsite_codes(facts, rep)
+
+
+
+def check_r6_callsite_codes(facts, rep):
+    """The reply code each caller passes belongs to the protocol version of the writer it calls, and is the success code exactly
+    on the path that established the channel."""
+    rid = "C18.R6"
+    rep.rule(rid, "callers of the reply writers: SOCKS4 writer gets 90 (granted) only after the channel is established and 91..93 otherwise; "
+                  "SOCKS5 writers get 0 only after success and a code in 1..=8 otherwise; the unknown-command path uses 7 (SOCKS5) / 91 (SOCKS4)")
+    crate = facts.crate("rusty_penguin_lib")
+    if crate is None or "client" not in crate.features:
+        rep.info("client feature disabled: no SOCKS front end")
+        return
+    n = 0
+    for b in crate.bodies:
+        if "/src/client/" not in b.file:
+            continue
+        tr = None
+        for bi, t in b.calls():
+            c = callee(t)
+            if not c or c["name"] not in ("write_response", "write_response_unspecified") or not ("v4::" in c["path"] or "v5::" in c["path"]):
+                continue
+            tr = tr or Tracer(facts, b)
+            n += 1
+            rep.analysed(b)
+            where = "%s (%s)" % (loc_str(t["loc"]), b.path)
+            code = const_eval(tr.operand(t["args"][1]))
+            v4 = "v4::" in c["path"]
+            after_channel = any(callee(t2) and callee(t2)["name"] == "request_tcp_channel" and b.dominates(bj, bi) for bj, t2 in b.calls()) or \
+                (c["name"] == "write_response" and not v4)
+            if code is None:
+                rep.bad(rid, "reply-code/%s#%d" % (b.path.split("::{")[0], n), where, "the reply code passed to %s is not a constant" % c["path"])
+                continue
+            dom = set(range(90, 94)) if v4 else set(range(0, 9))
+            succ = 90 if v4 else 0
+            okc = code in dom and ((code == succ) == bool(after_channel))
+            if okc:
+                rep.ok(rid, "reply-code/%s#%d" % (b.path.split("::{")[0], n), where, "%s <- %d" % (c["name"], code))
+            else:
+                rep.bad(rid, "reply-code/%s" % b.path.split("::{")[0], where,
+                        "%s is called with reply code %d: %s" % (c["path"], code,
+                                                                 "not a SOCKS%s reply code (the client cannot interpret the answer)" % ("4" if v4 else "5") if code not in dom
+                                                                 else "success/failure code on the wrong path"))
+    rep.floor(rid, "reply-writer call sites in the client", n, 6)
